@@ -240,6 +240,8 @@ M('F9bR', 'src/xdoctest/directive.py', "self._global_state.update(copy.deepcopy(
   'F9 repair, second site reverted: the REQUIRES set of the session defaults is shared by every doctest')
 M('F18R', 'src/xdoctest/core.py', "split_google_docblocks(docstr.expandtabs())", "split_google_docblocks(docstr)", ['C01', 'C18'],
   'F18 repair reverted: google blocks split on the raw text with tabs')
+M('F20R', 'src/xdoctest/doctest_example.py', "                            exc_got = ''.join(exc_lines)",
+  "                            exc_got = exc_lines[-1]", ['C03', 'C20'], 'F20 repair reverted: only the last line of the exception text is compared')
 M('F17R', 'src/xdoctest/doctest_example.py', """                part_directive = None
                 try:
                     try:
